@@ -8,6 +8,10 @@ Four streams are produced for every history (list of op lines, true integer time
 impl != spec on an in-scope history  -> VIOLATION (shrunk by removing ops / script items, staying in scope)
 impl != model on an in-scope history (impl == spec) -> broken correspondence
 differences on out-of-scope histories are only counted (coverage note).
+
+C03 only: op `loop T1 T2 ret item*` = one iteration of the real posix/fibre_posix.c main loop on a virtual clock.
+impl/model lines end in ` sleep=<d>|none`, the spec line in ` maxsleep=<V-T2>`; the specification of the sleep is a
+relation (Spec.Sched.SleepOk: `none` always allowed, `d` iff 1 <= d <= V-T2), judged here by `line_ok`.
 """
 import hashlib, json, os
 import vlib
@@ -88,6 +92,68 @@ def fmt_next(T, ret, script):
     return ' '.join(['next', str(T), ret] + ['%s:%d' % kv for kv in script])
 
 
+def fmt_loop(T1, T2, ret, script):
+    return ' '.join(['loop', str(T1), str(T2), ret] + ['%s:%d' % kv for kv in script])
+
+
+# --------------------------------------------------------------------------- the POSIX main loop (C03 only)
+EDGES = [0, 1, 2, 998, 999, 1000, 1001, 1002, 49999, 50000, 50001, 10 ** 6]      # values of V - T2 / T2 - T1 around the code's constants
+GAPS = [0, 1, 7, 999, 1000, 1001, 49999, 50000, 50001, 10 ** 6, W31 - 50001, W31 - 1, W31]
+
+
+def bucket(m):
+    """bucket of an interval in microseconds (V - T2 or T2 - T1): the edges of the code's constants are kept apart"""
+    if m < 0: return '<0'
+    if m in (0, 1, 999, 1000, 1001, 49999, 50000, 50001): return str(m)
+    if m < 999: return '2..998'
+    if m < 49999: return '1002..49998'
+    if m < 10 ** 6: return '50002..999999'
+    if m < W31 - 50001: return '1e6..'
+    if m <= W31: return 'near-2^31'
+    return '>2^31'
+
+
+def coarse(m):
+    """stable violation key: which rule of the sleep the implementation broke"""
+    return 'not-allowed' if m <= 0 else '1..999' if m < 1000 else '1ms..50ms' if m < 50000 else '>=50ms'
+
+
+def split_loop(line):
+    """(`next` part, 'sleep'|'maxsleep'|None, value)"""
+    for tag in (' sleep=', ' maxsleep='):
+        if tag in line:
+            b, v = line.rsplit(tag, 1)
+            try:
+                return b, tag[1:-1], (None if v == 'none' else int(v))
+            except ValueError:
+                return line, None, None
+    return line, None, None
+
+
+def line_ok(a, e):
+    """does the implementation's line `a` satisfy the specification's line `e`?  -> None | 'differs' | 'mainloop-oversleep:<key>'"""
+    eb, ek, m = split_loop(e)
+    if ek != 'maxsleep':
+        return None if a == e else 'differs'
+    ab, ak, d = split_loop(a)
+    if ak != 'sleep' or ab != eb:
+        return 'differs'
+    if d is not None and d != 0 and not (d <= m):      # usleep(0) delays nothing
+        return 'mainloop-oversleep:' + coarse(m)
+    return None
+
+
+def judge_spec(io, so):
+    """first op at which the implementation does not satisfy the specification: (index, why) or None"""
+    for k in range(max(len(io), len(so))):
+        if k >= len(io) or k >= len(so):
+            return k, 'differs'
+        why = line_ok(io[k], so[k])
+        if why:
+            return k, why
+    return None
+
+
 def pick_base(rng):
     """time base anywhere in the 32-bit ring; in 1/3 of the histories a few ticks before a wrap seam
     (0xffffffff->0 or 0x7fffffff->0x80000000), sometimes several laps up so that true times exceed 2^32"""
@@ -131,8 +197,59 @@ class Gen:
 
     def next(s, script=(), ret='w', dt=0):
         s.T += dt
+        if s.flavor == 'C03' and s.rng.chance(1, 3):        # C03 only (C01/C02 draw nothing here: their histories are unchanged)
+            return s.loop(list(script), ret)
         s.ops.append(fmt_next(s.T, ret, list(script)))
         return s.tr.next(s.T, list(script), ret)
+
+    def predict_wake(s, script, ret):
+        """the tracker's guess of what the pass at s.T will return: ('now'|'due'|'unbounded', V) — used only to aim T2"""
+        t = s.tr.copy()
+        d = t.next(s.T, script, ret)
+        if (d is not None and ret == 'y') or t.rq or t.pend:
+            return 'now', s.T
+        if t.sleep:
+            return 'due', min(x[1] for x in t.sleep)
+        return 'unbounded', s.T + W31 - 1
+
+    def loop(s, script, ret, T2=None):
+        """one main-loop iteration: the pass at s.T, second clock reading T2 (gap from GAPS, or aimed so that V - T2
+        lands on an edge of the code's constants)"""
+        rng = s.rng
+        if T2 is None:
+            kind, V = s.predict_wake(script, ret)
+            cands = [V - e for e in EDGES + [-1, -1000]] if kind != 'now' else []
+            cands = [x for x in cands if s.T <= x <= s.T + W31]
+            if cands and rng.chance(1, 2):
+                T2 = rng.choice(cands)
+            else:
+                r = rng.below(10)
+                T2 = s.T + (rng.choice([0, 1, 2, 3, 5]) if r < 4 else rng.choice(GAPS) if r < 9 else rng.below(W31))
+        s.ops.append(fmt_loop(s.T, T2, ret, script))
+        s.shapes.add('main-loop iteration')
+        d = s.tr.next(s.T, script, ret)
+        if T2 - s.T <= 10 ** 6 and rng.chance(1, 2):
+            s.T = T2                                          # the clock really moved; otherwise a hypothetical reading
+        return d
+
+    def shape_mainloop(s):
+        """C03: a fibre sleeps until a due time 1 us .. 1 s away and the main loop is run the way the real one runs —
+        each iteration starts when the previous sleep ends — until the timeout has fired"""
+        rng = s.rng
+        s.shapes.add('main loop run until the timeout fires')
+        f = s.fid(); s.run(f)
+        D = s.T + rng.choice(EDGES[1:] + [1500, 20000, 75000, 120000]) + rng.choice([0, 0, 1, 5])
+        script = [('t', D)] + ([('r', s.fid())] if rng.chance(1, 6) else [])
+        ret = rng.choice('wwwwy')
+        for i in range(rng.range(2, 7)):
+            T2 = s.T + rng.choice([0, 1, 2, 5, 40])
+            kind, V = s.predict_wake(script, ret)
+            s.ops.append(fmt_loop(s.T, T2, ret, script)); s.tr.next(s.T, script, ret)
+            script, ret = [], 'w'
+            if kind == 'now' or V <= T2:
+                s.T = T2
+            else:
+                s.T = T2 + min(V - T2, 50000) + rng.choice([0, 0, 0, 1, 3])      # usleep returns on time or a little late
 
     def advance(s):
         """how far to move the clock before a pass: mostly small, often exactly onto / around a pending due time"""
@@ -163,6 +280,8 @@ class Gen:
             return s.T + rng.choice([-(W31 - 1), -(W31 // 2)])             # long past, still inside the window
         if r < 7:
             return s.T + rng.choice([W31 - 1, W31 - 2, W31 // 2 + 5])      # far future, edge of the window
+        if s.flavor == 'C03' and rng.chance(1, 4):                       # C03 only: due times around the main loop's constants
+            return s.T + rng.choice(EDGES[3:] + [2000, 60000]) + rng.choice([0, 0, 1, 7, 1000])
         pool = [1, 2, 3, 4, 5, 8, 13, 21, 40]
         return s.T + s.step * rng.choice(pool[:rng.range(2, len(pool))])
 
@@ -363,7 +482,7 @@ class Gen:
         rng = s.rng
         mix = {'C01': [s.shape_sleeper_and_yielder, s.shape_self_run_then_exit, s.shape_mixed_pass, s.shape_kill_sleepers] * 2 + [s.shape_wrap_seam, s.shape_wake, s.shape_atomic_overflow],
                'C02': [s.shape_wrap_seam] * 5 + [s.shape_kill_sleepers, s.shape_kill_sleepers, s.shape_sleeper_and_yielder, s.shape_mixed_pass, s.shape_atomic_overflow],
-               'C03': [s.shape_wake] * 5 + [s.shape_mixed_pass, s.shape_sleeper_and_yielder, s.shape_wrap_seam, s.shape_kill_sleepers, s.shape_atomic_overflow]}[s.flavor]
+               'C03': [s.shape_wake] * 5 + [s.shape_mainloop] * 3 + [s.shape_mixed_pass, s.shape_sleeper_and_yielder, s.shape_wrap_seam, s.shape_kill_sleepers, s.shape_atomic_overflow]}[s.flavor]
         if rng.chance(3, 4):
             for _ in range(rng.range(0, 6)):
                 s.rand_op()
@@ -386,8 +505,10 @@ def gen_out_of_scope(rng, flavor):
     g = Gen(rng, flavor, nops=rng.range(5, 25))
     ops = g.build()
     T = g.T
-    kind = rng.below(3)
-    if kind == 0:
+    kind = rng.below(4 if flavor == 'C03' else 3)
+    if kind == 3:       # C03: the second clock reading more than 2^31 after the first (the int32 interval wraps: not alarmed)
+        ops += ['run 0', fmt_loop(T, T + W31 + 1 + rng.below(1000), rng.choice('yw'), [('t', T + 5)]), fmt_next(T + 9, 'w', [])]
+    elif kind == 0:
         ops += ['run 0', fmt_next(T, 'w', [('t', T + 5), ('t', T + 3)]), fmt_next(T + 9, 'w', []), fmt_next(T + 9, 'w', [])]
     elif kind == 1:
         ops += ['run 0', fmt_next(T, 'w', [('t', T + W31 + 7)]), fmt_next(T + 1, 'w', [])]
@@ -400,7 +521,7 @@ def gen_out_of_scope(rng, flavor):
 def harness(ctx):
     R = vlib.REPO
     exe, log = ctx.cc('h_sched', [os.path.join(vlib.VERIF, 'harness/h_sched.c'), R + '/librfn/list.c', R + '/librfn/messageq.c',
-                                  R + '/librfn/util.c', R + '/librfn/posix/time_posix.c'], ['-I' + R + '/librfn'])
+                                  R + '/librfn/util.c'], ['-I' + R + '/librfn'])      # time_now()/usleep(): the harness's own virtual clock
     if not exe:
         raise vlib.Unbuildable('scheduler harness does not compile against the repository: ' + log[-1500:])
     return exe
@@ -429,23 +550,29 @@ def in_scope(scope_lines, n):
     return len(scope_lines) == n and all(l == 'in' for l in scope_lines)
 
 
-def shrink(ctx, exe, h):
-    """smallest history (ops removed, then script items removed) that stays in scope and on which impl != spec"""
+def shrink(ctx, exe, h, why=None):
+    """smallest history (ops removed, main-loop iterations reduced to plain passes, script items removed) that stays in
+    scope and on which the implementation does not satisfy the specification (in the same way `why`, when given)"""
     def fails(c):
         if not c:
             return False
         o = streams(ctx, exe, [c], timeout=60, want=('impl', 'spec', 'scope'))
-        return in_scope(o['scope'][0], len(c)) and o['impl'][0] != o['spec'][0]
+        j = judge_spec(o['impl'][0], o['spec'][0])
+        return in_scope(o['scope'][0], len(c)) and j is not None and (why is None or j[1] == why)
     h = vlib.ddmin(h, fails, max_tests=300)
     changed = True
     while changed:
         changed = False
         for i, l in enumerate(h):
             w = l.split()
-            if w[0] != 'next' or len(w) <= 3:
+            first = {'next': 3, 'loop': 4}.get(w[0])
+            if first is None:
                 continue
-            for j in range(3, len(w)):
-                c = h[:i] + [' '.join(w[:j] + w[j + 1:])] + h[i + 1:]
+            cands = [' '.join(w[:j] + w[j + 1:]) for j in range(first, len(w))]
+            if w[0] == 'loop':
+                cands.insert(0, ' '.join(['next', w[1]] + w[3:]))        # is the main loop needed at all?
+            for c1 in cands:
+                c = h[:i] + [c1] + h[i + 1:]
                 if fails(c):
                     h, changed = c, True
                     break
@@ -464,7 +591,7 @@ def compare(ctx, exe, hs, label, stats=None, expect_in_scope=True):
     if not ctx.build_model():
         return 0
     o = streams(ctx, exe, hs)
-    agreed = 0
+    agreed, noted = 0, False
     for i, h in enumerate(hs):
         io = o['impl'][i] if i < len(o['impl']) else None
         if io is None:      # the harness died in an earlier history of this batch: run this one alone
@@ -476,44 +603,77 @@ def compare(ctx, exe, hs, label, stats=None, expect_in_scope=True):
         if stats is not None:
             stats['in_scope' if ins else 'out_of_scope'] = stats.get('in_scope' if ins else 'out_of_scope', 0) + 1
             if ins:
-                tally(stats, h, so)
+                tally(stats, h, so, io)
         if not ins:
             if io != mo and stats is not None:
                 stats['out_of_scope_impl_differs_from_model'] = stats.get('out_of_scope_impl_differs_from_model', 0) + 1
             if expect_in_scope and stats is not None:
                 stats['generator_left_scope'] = stats.get('generator_left_scope', 0) + 1
             continue
-        if io == so and io == mo:
+        j = judge_spec(io, so)
+        if j is None and io == mo:
             agreed += 1
             continue
-        if io != so:
-            hh = shrink(ctx, exe, h)
+        if j is not None:
+            oversleep = j[1].startswith('mainloop-oversleep')
+            hh = shrink(ctx, exe, h, j[1] if oversleep else None)
             o2 = streams(ctx, exe, [hh], timeout=60)
             a, e, m = o2['impl'][0], o2['spec'][0], o2['model'][0]
-            k = vlib.diff_streams(a, e)
-            k = 0 if k is None else k
-            ctx.violation({'obligation': f'{label}: implementation vs abstract specification (Spec/Sched.lean) on an in-scope history',
-                           'ops': ['reset'] + hh, 'first_difference_at_op': k,
-                           'op': hh[k] if k < len(hh) else None,
-                           'expected': e[max(0, k - 2):k + 3], 'observed': a[max(0, k - 2):k + 3], 'model': m[max(0, k - 2):k + 3],
-                           'original_length': len(h),
-                           'how_to_rerun': f'./check {ctx.pid} --replay <this file>'}, key=key_of(hh))
+            j2 = judge_spec(a, e)
+            k, why = j2 if j2 else (0, j[1])
+            r = {'obligation': f'{label}: implementation vs abstract specification (Spec/Sched.lean) on an in-scope history',
+                 'ops': ['reset'] + hh, 'first_difference_at_op': k,
+                 'op': hh[k] if k < len(hh) else None,
+                 'expected': e[max(0, k - 2):k + 3], 'observed': a[max(0, k - 2):k + 3], 'model': m[max(0, k - 2):k + 3],
+                 'original_length': len(h),
+                 'how_to_rerun': f'./check {ctx.pid} --replay <this file>'}
+            if why.startswith('mainloop-oversleep') and k < len(a) and k < len(e):
+                d, mx = split_loop(a[k])[2], split_loop(e[k])[2]
+                r['obligation'] = (f'{label}: the real fibre_scheduler_main_loop (posix/fibre_posix.c) sleeps past the time fibre_scheduler_next '
+                                   'returned (Spec.Sched.SleepOk; theorem Librfn.C03.mainloop_never_delays) on an in-scope history')
+                r['reason'] = (f'usleep({d}) at clock reading T2 although the returned time is only {mx} us after T2: '
+                               + ('a runnable fibre / a due timeout is delayed by the whole sleep' if mx <= 0
+                                  else f'the sleep ends {d - mx} us after the returned time'
+                                       + (' (nothing is pending: the returned time is T1 + FIBRE_UNBOUNDED_SLEEP)' if (int(a[k].split('wake=')[1].split()[0]) - int(hh[k].split()[1])) % W32 == W31 - 1
+                                          else ' = the earliest pending due time: that timeout is delayed by as much')))
+                # stable key: which rule was broken + how the slept interval relates to the pass (distinguishes D13's 50 ms poll
+                # from an interval computed against the pre-pass clock reading, etc.)
+                vt1 = (int(a[k].split('wake=')[1].split()[0]) - int(hh[k].split()[1])) % W32
+                how = 'poll-50ms' if d == 50000 else 'interval-from-T1' if d == min(vt1, 50000) else 'other'
+                ctx.violation(r, key=why + ':' + how)
+            else:
+                ctx.violation(r, key=key_of(hh))
             return agreed
-        k = vlib.diff_streams(io, mo)
-        ctx.broken.append(f'correspondence {label}: concrete model differs from the implementation (implementation agrees with the specification) '
-                          f'on in-scope history {h[:10]}... at op {k}: model={mo[k:k + 2] if k is not None else None} impl={io[k:k + 2] if k is not None else None}')
-        return agreed
+        if not noted:          # broken correspondence: note the first one, keep searching this batch for a violation of the specification
+            noted = True
+            k = vlib.diff_streams(io, mo)
+            ctx.broken.append(f'correspondence {label}: concrete model differs from the implementation (implementation satisfies the specification) '
+                              f'on in-scope history {h[:10]}... at op {k}: model={mo[k:k + 2] if k is not None else None} impl={io[k:k + 2] if k is not None else None}')
     return agreed
 
 
-def tally(stats, h, out):
-    """histograms over in-scope histories: ops, script items, returns, outcomes"""
+def tally(stats, h, out, impl=None):
+    """histograms over in-scope histories: ops, script items, returns, outcomes (`out` = the specification's lines,
+    `impl` = the implementation's)"""
     hist = stats.setdefault('hist', {})
+    ml = stats.setdefault('mainloop', {})
     def inc(k, n=1):
         hist[k] = hist.get(k, 0) + n
-    for l, o in zip(h, out):
+    def incm(k):
+        ml[k] = ml.get(k, 0) + 1
+    for i, (l, o) in enumerate(zip(h, out)):
         w = l.split()
         inc('op:' + w[0])
+        if w[0] == 'loop':
+            # one main-loop iteration: bucket the pass duration T2-T1, the allowed interval V-T2 and what the real loop did
+            o, _, m = split_loop(o)
+            d = split_loop(impl[i])[2] if impl is not None and i < len(impl) else None
+            incm('T2-T1:' + bucket(int(w[2]) - int(w[1])))
+            if m is not None:
+                incm('V-T2:' + bucket(m))
+                incm('impl:' + ('no-sleep,none-allowed' if d is None and m <= 0 else 'no-sleep,sleep-allowed' if d is None
+                                else 'slept-exactly-until-V' if d == m else 'slept-50ms-poll' if d == 50000 and m > 50000 else 'slept-other'))
+            w = ['next', w[1]] + w[3:]
         if w[0] == 'next':
             if o.startswith('idle'):
                 inc('pass:idle')
@@ -555,6 +715,29 @@ def load_corpus(pid):
                 r = json.load(open(os.path.join(d, fn)))
                 out.append([l for l in r['ops'] if l != 'reset'])
     return out
+
+
+def mainloop_grid(bases):
+    """C03: every pass duration in GAPS x every allowed interval V-T2 around the code's constants x five states at
+    return (sleeper only / also a queued fibre / also an accepted atomic request / the fibre yielded / idle pass with an
+    earlier sleeper), at each time base"""
+    offs = [-50001, -1000, -1] + EDGES + [W31 - 2]
+    hs = []
+    for b in bases:
+        for gap in GAPS:
+            for off in offs:
+                T1, T2 = b, b + gap
+                D = T2 + off
+                if not (T1 < D < T1 + W31):
+                    continue
+                hs.append(['run 0', fmt_loop(T1, T2, 'w', [('t', D)])])
+                hs.append(['run 0', 'run 1', fmt_loop(T1, T2, 'w', [('t', D)])])
+                hs.append(['run 0', fmt_loop(T1, T2, 'w', [('t', D), ('a', 1)])])
+                hs.append(['run 0', fmt_loop(T1, T2, 'y', [('t', D)])])
+                if D < T1 - 1 + W31:
+                    hs.append(['run 0', fmt_next(T1 - 1, 'w', [('t', D)]), fmt_loop(T1, T2, 'w', [])])
+            hs.append([fmt_loop(b, b + gap, 'w', [])])                   # nothing at all: unbounded sleep, polled
+    return hs
 
 
 # --------------------------------------------------------------------------- exhaustive small scope (thorough tier)
@@ -605,7 +788,7 @@ def line_coverage(ctx, hs):
     R = vlib.REPO
     cmd = ['gcc', '-g', '-O0', '--coverage', '-D' + vlib.GUARD, '-I' + R + '/include', '-I' + os.path.join(vlib.VERIF, 'harness'), '-I' + R + '/librfn',
            '-o', os.path.join(d, 'hc'), os.path.join(vlib.VERIF, 'harness/h_sched.c'), R + '/librfn/list.c', R + '/librfn/messageq.c',
-           R + '/librfn/util.c', R + '/librfn/posix/time_posix.c']
+           R + '/librfn/util.c']
     rc, o, e = vlib.sh(cmd, timeout=300, cwd=d)
     if rc != 0:
         return {'error': (o + e)[-300:]}
@@ -651,6 +834,12 @@ def run_sched(ctx, meta, modules, required, flavor, allow_extra_axioms=None):
     corpus = load_corpus('C01') + (load_corpus(flavor) if flavor != 'C01' else [])
     if corpus:
         agreed += compare(ctx, exe, corpus, 'corpus', stats)
+    if flavor == 'C03' and not ctx.violations:      # systematic and seed-independent, so it runs before the random histories (stable witnesses)
+        bases = [1000, W32 - 25000, W31 - 500, 5 * W32 + 12345] + ([W32 - 1, W31 - 50000, 3 * W32 + W31 - 1] if ctx.tier == 'thorough' else [])
+        grid = mainloop_grid(bases)
+        agreed += compare(ctx, exe, grid, 'main-loop grid', stats)
+        ctx.cov['mainloop_grid'] = f'{len(grid)} one-iteration histories: T2-T1 in {GAPS} x V-T2 around {EDGES} x 5 states at return, time bases {[hex(b) for b in bases]}'
+        ctx.cov['evaluations'] += len(grid)
     nh = 1200 if ctx.tier == 'quick' else 20000
     hs, shapes = [], {}
     for _ in range(nh):
@@ -693,7 +882,9 @@ def run_sched(ctx, meta, modules, required, flavor, allow_extra_axioms=None):
     ctx.cov['ops_total'] = sum(len(h) for h in hs)
     ctx.cov['histograms'] = stats.get('hist', {})
     ctx.cov['shapes_constructed'] = shapes
-    ctx.cov['scope'] = {k: v for k, v in stats.items() if k != 'hist'}
+    ctx.cov['scope'] = {k: v for k, v in stats.items() if k not in ('hist', 'mainloop')}
+    if flavor == 'C03':
+        ctx.cov['mainloop_iterations_by_bucket'] = dict(sorted(stats.get('mainloop', {}).items()))
     ctx.sample({'history': hs[0][:10], 'length': len(hs[0])})
     ctx.sample({'history': hs[-1][:10], 'length': len(hs[-1])})
     ctx.cov['rule'] = ('histories of run/atomic/kill/next(T, script, ret) over 2-6 fibres, 5-60 ops (plus constructed shapes), true integer times with the base anywhere in the '
@@ -716,10 +907,11 @@ def replay_sched(ctx, path):
     ins = in_scope(sc, len(h))
     for i, l in enumerate(h):
         g = lambda x: x[i] if i < len(x) else '<none>'
-        print(('   ' if g(io) == g(so) else '!! ') + l, '| impl:', g(io), '| spec:', g(so), '| model:', g(mo), '|', g(sc))
+        why = line_ok(g(io), g(so))
+        print(('   ' if not why else '!! ') + l, '| impl:', g(io), '| spec:', g(so), '| model:', g(mo), '|', g(sc), ('| ' + why) if why and why != 'differs' else '')
     for l in io[len(h):]:
         print('!! impl:', l)
     print('in scope' if ins else 'OUT OF SCOPE')
-    k = vlib.diff_streams(io, so)
-    print('SAME' if k is None else f'DIFFER at op {k}')
-    return 0 if (k is None or not ins) else 1
+    j = judge_spec(io, so)
+    print('SAME (implementation satisfies the specification)' if j is None else f'DIFFER at op {j[0]}: {j[1]}')
+    return 0 if (j is None or not ins) else 1
